@@ -963,6 +963,8 @@ impl<'b> InnerBucket<'b> {
         #[allow(clippy::mutable_key_type)]
         let mut bucket_metas: HashMap<Bytes, BucketMeta> = HashMap::new();
         for (key, b) in self.buckets.iter() {
+            #[cfg(feature = "verif-hooks")]
+            crate::verif_hooks::emit("spill_child", &[], key.as_ref());
             let mut b = b.borrow_mut();
             let bucket_meta = b.spill(tx_freelist)?;
             // Store updated bucket metadata in a map since self is borrowed
